@@ -72,6 +72,7 @@ func GenLogoutModel(sp SPConfig, kind string, txt, attrTxt TextOpts) *rapid.Gene
 		if sp.IdPIssuer == "" {
 			m.Issuer = S(GenText(txt).Draw(t, "issuerFree"))
 		}
+		m.IssuerFormat = genIssuerFormat(t, "issuerFormat")
 		if kind == "LogoutRequest" {
 			m.NameID = optOf(t, "nameID", GenText(txt).Draw(t, "nameIDV"))
 			m.SessionIndex = optOf(t, "sessionIndex", GenText(txt).Draw(t, "sessionIndexV"))
